@@ -25,9 +25,26 @@ MANIFEST = {
             "tables (T1: the scraper understands exactly the present shape of lyxml_dump_text's switch and fails loudly "
             "otherwise) and differential runs (T2); lyxml_dump_text's output for CR/TAB/LF-rich strings is read by expat at "
             "function level, and whole documents printed by libyang are read by expat and Python json and compared with the "
-            "instance (search). A deviation of either is a plain violation.",
-    "note": "Modelled C: lyxml_dump_text, json_print_string (+ lexers). Document-level structure (namespaces, member qualification, "
-            "metadata objects) is only checked by the expat/json oracle on generated instances, which is testing. The instance "
+            "instance (search). A deviation of either is a plain violation. DOCUMENT LEVEL (slice doc, Tree subset): "
+            "C12_xml_doc_std / _sel / _single: a namespace-aware XML 1.0 reader written from the recommendations (elements, "
+            "attributes with both quote characters, character data and attribute values through StdText, Element Type Match, "
+            "Unique Att Spec, Prefix Declared, Attributes Unique) applied to xml_print (the transcription of printer_xml.c) "
+            "reports no top-level character data and exactly the generic element trees of the selected forest: namespaces of "
+            "elements and metadata attributes, values, order - for side tables in which a prefix stands for one namespace "
+            "(C12_xml_doc_prefix_clash_refuted: without it libyang writes a duplicate xmlns:prefix, finding xml-meta-prefix-clash) "
+            "and metadata keys distinct per node (C12_xml_doc_dup_meta_refuted); several top-level nodes are well-formed content, "
+            "not a document (C12_xml_doc_std_siblings_refuted). C12_json_doc_std_partial: an RFC 8259 reader (grammar of sections "
+            "2-7 + StdText strings) applied to json_doc (rendering of the RFC 7951 value) recovers that value (qualifiers, "
+            "arrays, string / literal classes, [null], RFC 7952 metadata objects); that printer_json.c's state machine prints "
+            "json_doc is checked by T2 on every case (explicit / report-all), and refuted for trim mode "
+            "(C12_json_trim_refuted = finding json-trim-leaflist-meta: not JSON). Tie as for C01 (byte-identical output, the "
+            "standard readers of the Coq development run on libyang's bytes). WellFormedX: expat / json on libyang's output for "
+            "opaque nodes, anydata / anyxml and operations.",
+    "note": "Modelled C: lyxml_dump_text, json_print_string (+ lexers), xml_print_data and json_print_data on the Tree subset "
+            "(one data module, shrink mode, no anydata / opaque nodes / unions / tagged with-defaults modes). Outside that subset the "
+            "document-level structure is only checked by the expat/json oracles on generated instances, which is testing. Open "
+            "finding outside the oracles' reach: XML-parsed opaque siblings of equal name in DIFFERENT unknown namespaces make the "
+            "JSON printer fail its assertion !pctx.open.count / emit invalid JSON (matching_node ignores namespaces). The instance "
             "generator puts no CR into metadata values (TAB/LF it does); CR in attribute values is covered by the theorem, T2 and "
             "the function-level expat oracle only.",
     "technique": "Coq proof (independent standard readers vs printer models) + correspondence + expat/json oracles",
